@@ -9,10 +9,11 @@
 (apply(files, site, rng) -> files: an edit of the rendering, for layout and token-level rules).
 
 Every injection must be CERTAINLY illegal: a legal spec passed off as a violation would be a false alarm.  Rules whose
-violation the present compiler is known to accept (holes: A15.alias, A15.early, A22.alias) are ordinary rules here;
-the suite reports an accepted case with the rule id.  (Two patches of one type used to be injected as a violation;
-since all patches of a type are applied that is legal -- corpus/C01 keeps it as a seed that must be accepted --
-and the injector now makes the two patches add the same member.)  `UNBUILT` lists catalogue entries without an injector.
+violation the compiler used to accept (A5.3, A15.alias, A15.early, A20.elem, A22.alias, A32.container) are ordinary
+rules here; the suite reports an accepted case with the rule id.  (Two patches of one type used to be injected as a
+violation; since all patches of a type are applied that is legal -- corpus/C01 keeps it as a seed that must be accepted
+-- and the injector now makes the two patches add the same member.)  `UNBUILT` lists catalogue entries without an
+injector.
 """
 import re
 from dataclasses import dataclass
